@@ -391,8 +391,8 @@ class FileUploadHandler(UploadHandler):
             return await self._handle_delete(request.path)
 
         # 5. Validate path (path traversal protection)
-        target = (self.upload_dir / request.path.lstrip("/")).resolve()
-        if not self._is_safe_path(target):
+        target = self._resolve_target(request.path)
+        if target is None:
             return GeminiResponse(
                 status=StatusCode.BAD_REQUEST.value,
                 meta="Invalid path",
@@ -446,9 +446,9 @@ class FileUploadHandler(UploadHandler):
                 meta="Delete operations are disabled",
             )
 
-        target = (self.upload_dir / path.lstrip("/")).resolve()
+        target = self._resolve_target(path)
 
-        if not self._is_safe_path(target):
+        if target is None:
             return GeminiResponse(
                 status=StatusCode.BAD_REQUEST.value,
                 meta="Invalid path",
@@ -477,6 +477,30 @@ class FileUploadHandler(UploadHandler):
                 status=StatusCode.TEMPORARY_FAILURE.value,
                 meta=f"Delete failed: {str(e)}",
             )
+
+    def _resolve_target(self, path: str) -> Path | None:
+        """Resolve a request path to its location inside the upload directory.
+
+        Args:
+            path: The path component of the Titan request.
+
+        Returns:
+            The fully resolved target, or None if the path cannot be resolved
+            or does not lie inside the upload directory.
+        """
+        try:
+            target = (self.upload_dir / path.lstrip("/")).resolve()
+            # The target may not exist yet, so it cannot be resolved strictly.
+            # But a non-strict resolve() gives up at a symlink loop and leaves
+            # the rest of the path (including further symlinks) unresolved; a
+            # completely resolved path is a fixed point of resolve().
+            if target.resolve() != target:
+                return None
+        except (ValueError, OSError, RuntimeError):
+            return None
+        if not self._is_safe_path(target):
+            return None
+        return target
 
     def _is_safe_path(self, file_path: Path) -> bool:
         """Check if a file path is within the upload directory.
